@@ -113,7 +113,7 @@ def run(seed, n=150, cvc5_s=0):
     s.set("timeout", 3000)
     s.set("auto_config", False)
     s.set("smt.mbqi", False)
-    for a in sym.base_axioms():
+    for a in sym.base_axioms(theories=tuple(sym.GROUPS)):
         s.add(a)
     b0 = z3.Const("sc!b", sym.Bytes)
     s.add(sym.LEN(b0) == 3, sym.AT(b0, 0) == 0, sym.BE(b0) == 5, sym.BYTELEN(300) == 2, sym.LEN(sym.NBE(300, 2)) == 2,
@@ -122,7 +122,7 @@ def run(seed, n=150, cvc5_s=0):
         failures.append(("axiom-set", [], "the axioms (with a satisfiable ground seed) are contradictory"))
     if cvc5_s:
         from . import solve
-        v, _ = solve._run_cvc5(solve.to_smt2(sym.base_axioms(), [], z3.BoolVal(False)), cvc5_s)
+        v, _ = solve._run_cvc5(solve.to_smt2(sym.base_axioms(theories=tuple(sym.GROUPS)), [], z3.BoolVal(False)), cvc5_s)
         if v == "unsat":
             failures.append(("axiom-set", [], "cvc5 --enum-inst derives False from the axioms alone"))
     return dict(tested=tested, failures=failures, axioms=names)
